@@ -86,7 +86,9 @@ impl Cli {
 
         match env_logger::Builder::new()
             .filter_level(level)
-            .target(env_logger::Target::Stderr)
+            // Write through a pipe target rather than `Target::Stderr`, which panics if stderr
+            // cannot be written to (e.g. a full disk or a closed pipe)
+            .target(env_logger::Target::Pipe(Box::new(std::io::stderr())))
             .format(|buf, record| {
                 let level = record.level().as_str().to_lowercase();
                 let args = record.args();
@@ -95,7 +97,9 @@ impl Cli {
             .try_init()
         {
             Ok(()) => (),
-            Err(e) => eprintln!("failed to setup logger: {e}"),
+            Err(e) => {
+                let _ = writeln!(std::io::stderr(), "failed to setup logger: {e}");
+            }
         }
 
         self.command.run()
@@ -171,7 +175,8 @@ fn main() {
     match cli.run() {
         Ok(()) => (),
         Err(e) => {
-            eprintln!("{e}");
+            // Not `eprintln!`, which panics if stderr cannot be written to
+            let _ = writeln!(std::io::stderr(), "{e}");
             std::process::exit(1);
         }
     }
